@@ -33,9 +33,12 @@ ASSUMPTIONS = [
 ]
 PARTIAL = ("write_fault_loud is proved against an arbitrary responder for the response-level faults (NO, wrong echo, "
            "garbled, wrong DTR0 read-back): a normal return implies every write was echoed correctly and DTR0 read back "
-           "as expected. The unit-level deviations (does not advance DTR0, non-standard unlock value, shorter bank) are "
-           "covered for the conforming-unit side by write_not_writable (a cell that cannot be written => "
-           "MemoryLocationNotWriteable) and otherwise by the correspondence suites only.")
+           "as expected. The unit-level deviation 'does not advance DTR0' (on one frame, on some, on all) is covered by "
+           "write_stall_loud for values with consecutive locations (all declared ones: tables_consecutive): a normal "
+           "return implies exactly the data is stored; that the outcome is then MemoryWriteFailure is tied by the "
+           "stall/deviating suites. Non-standard unlock value / shorter bank are covered for the conforming-unit side by "
+           "write_not_writable (a cell that cannot be written => MemoryLocationNotWriteable) and otherwise by the "
+           "correspondence suites only.")
 LEVEL_TEXT = ("Lean 4 theorems about write_raw against a specification memory unit: values with a read-only location and "
               "wrong lengths are refused before anything is sent; for a conforming unit where every target cell can be "
               "written the run returns normally and the memory afterwards holds exactly the data at exactly the "
@@ -167,7 +170,9 @@ def _correspond(ctx, corr, rng, T, ls):
         "(zero, FF, random) of the right and of wrong lengths, short writes x lock byte initially FF/55/AA/odd x "
         "gear/device/int x force_unlock / ignore_feedback; write() with MASK/TMASK literals, numbers and strings; "
         "one fault of each kind (NO, framing error, other byte) at each command position; deviating units (does not "
-        "advance DTR0, other unlock value, shorter bank, hole, cell read-only in the unit). "
+        "advance DTR0, other unlock value, shorter bank, hole, cell read-only in the unit); a unit that does not advance "
+        "DTR0 on ONE write frame only (every k), on all data writes, on random pairs, for every writable value with and "
+        "without force_unlock (oracle: final memory of the specification unit). "
         "non-trivial = distinct (value, outcome class, flags, unit deviation)" % (len(vals), nw))
     corr.exhaustive["all suites are sampled (every declared value is visited)"] = False
     suite = "write_raw"
